@@ -2,7 +2,7 @@ from ..streams import transfer
 from ..oracles import c11
 
 STREAMS = [transfer.stream_load_transfer, transfer.stream_disp_transfer, transfer.stream_mesh_point_forces]
-ORACLES = [c11.oracle_conservation, c11.oracle_rigid_motion, c11.oracle_group_mesh_point_forces]
+ORACLES = [c11.oracle_conservation, c11.oracle_rigid_motion, c11.oracle_group_mesh_point_forces, c11.oracle_two_surface_aerostruct]
 UNPROVED = ["second-order defect of the rotation map T(r) - [r]x is not bounded by a theorem (the property only asks first order)"]
 ASSUMPTIONS = [
     "theorems are over R; the implementation is binary64 (agreement 1e-9 relative on sampled inputs)",
